@@ -12,6 +12,7 @@ import (
 
 	"github.com/gabriel-vasile/mimetype"
 	"github.com/gabriel-vasile/mimetype/internal/verifx/core"
+	"github.com/gabriel-vasile/mimetype/internal/verifx/ref"
 )
 
 // C02 — the result is always a valid, registered MIME type with a rooted
@@ -222,6 +223,25 @@ func c02Run(c *core.Ctx) {
 			try(w.Data, 3072, 3, off, "c:read-error")
 			try(w.Data, uint32(off+1), 3, off, "c:read-error")
 			c.R.Nontrivial++
+		}
+	}
+	// every text witness behind each of the five byte-order marks (formats whose
+	// detectors tolerate a BOM must still not carry parameters unless they are one
+	// of the three text types)
+	for _, w := range W {
+		if len(w.Data) == 0 || len(w.Data) > 600 || !c.Next() || c.Expired() {
+			continue
+		}
+		if !inChain(detect(w.Data, 0), "text/plain") {
+			continue
+		}
+		for _, b := range ref.BOMs {
+			v := append(append([]byte{}, b.Bytes...), w.Data...)
+			c.R.States++
+			for _, l := range []uint32{0, 3072, 64, uint32(len(b.Bytes))} {
+				try(v, l, 0, 0, "a:bom+text-witness")
+			}
+			try(v, 0, 1, 0, "a:bom+text-witness")
 		}
 	}
 	if c.Mine(0) {
